@@ -1,11 +1,12 @@
 #!/bin/sh
 # usage: tools/runall.sh [tier] [ids...]   runs the checks one after another and prints a summary
 tier=${1:-quick}; shift
-ids=${*:-$(python3 -c "import json;print(' '.join(c['property_id'] for c in json.load(open('/verif/MANIFEST.json'))['checks']))")}
-cd /verif
+here=$(cd "$(dirname "$0")/.." && pwd)
+ids=${*:-$(python3 -c "import json;print(' '.join(c['property_id'] for c in json.load(open('$here/MANIFEST.json'))['checks']))")}
+cd $here
 for p in $ids; do
   s=$(date +%s)
-  ./check $p --tier $tier > /tmp/runall-$p.log 2>&1; rc=$?
+  ./check $p --tier $tier > /tmp/runall-$tier-$p.log 2>&1; rc=$?
   e=$(date +%s)
-  echo "$p rc=$rc $((e-s))s $(grep -c VIOLATION /tmp/runall-$p.log) violations; $(tail -1 /tmp/runall-$p.log | cut -c1-150)"
+  echo "$p rc=$rc $((e-s))s $(grep -c VIOLATION /tmp/runall-$tier-$p.log) violations; $(tail -1 /tmp/runall-$tier-$p.log | cut -c1-150)"
 done
